@@ -74,6 +74,10 @@ claim("C14", "Region path enumeration of DialContext: after http.ReadResponse ev
 claim("C15", "Both ends' compression decisions are tied to the same facts on every path: server announce <=> enable (EnableCompression and permessage-deflate offer), client adopt only with token + both parameters (partial reply refused), offer iff EnableCompression, functions stored in pairs, literals parse to what the peer tests, reader/writer RSV1 gates (shared with C04/C03/C02), compression level range tied to the pool array. inflate∘deflate = id is NOT decided.",
       NOTE, "sibling agreement by path enumeration + constant/literal parsing (go/ssa)", "DESIGN.md §4 C15")
 
+claim("C17", "Reader-selection coverage: every path of Upgrade from Hijack to newConn either reuses the hijacked bufio.Reader, wraps the connection in brNetConn{hijacked reader, hijacked conn}, or carries Buffered() == 0; newConn keeps a given reader; brNetConn.Read is limited to Buffered() bytes, returns that read's result and detaches only after observing an empty buffer; "
+      "the client parses the 101 from Conn.br of the Conn it returns and creates no other reader. 'For every split point' is a value property over bufio and is NOT decided.",
+      NOTE, "region path enumeration with value identity (go/ssa)", "DESIGN.md §4 C17")
+
 REASON_NOT_BUILT = "rules for this property are not built yet in this revision (see DESIGN.md §4 for the planned static rules); nothing is claimed"
 
 def main():
